@@ -316,6 +316,8 @@ def jobs(tier):
         for h, nexp in ([(1, 0), (2, 0), (1, 1)] if quick else [(1, 0), (2, 0), (1, 1), (2, 1), (3, 0)]):
             if quick and sh.S == 3 and (h, nexp) != (1, 0):
                 continue
+            if (h, nexp) == (2, 1) and i in (0, 1):
+                continue      # (more than 20000 paths / 1500 s per case on these two skeletons)
             yield ('plan', dict(shape=i, h=h, nexp=nexp), dict(o, cost=20))
         yield ('qmdp', dict(shape=i, h=2), dict(o, cost=10))
         if sh.S >= 2:
